@@ -7,6 +7,7 @@
 
    Not modelled: footnotes, metadata header, images (the workload has none). *)
 From Coq Require Import String Ascii List Bool Arith.
+From WZ Require Import Gen.MdTables.
 Import ListNotations.
 Open Scope string_scope.
 Open Scope list_scope.
@@ -47,9 +48,10 @@ Fixpoint repeat_str (s : string) (n : nat) : string := match n with 0 => "" | S 
 Definition bslash : ascii := ascii_of_nat 92.
 Definition btick : ascii := ascii_of_nat 96.
 
-(* escapeMarkdownText: \ * _ ` [ ] < > # | ~ & *)
+(* escapeMarkdownText: the set is read from the source on every run (Gen/MdTables.v); on the tree this model was
+   written for it is  \ * _ ` [ ] < > # | ~ &  *)
 Definition needs_escape (c : ascii) : bool :=
-  existsb (Nat.eqb (code_of c)) [92; 42; 95; 96; 91; 93; 60; 62; 35; 124; 126; 38].
+  existsb (Nat.eqb (code_of c)) md_escape_set.
 Fixpoint escape_chars (cs : list ascii) : list ascii :=
   match cs with
   | [] => []
